@@ -122,6 +122,9 @@ def check_end_handling(F, run, sname):
     return b
 
 
+SPOS = sp.Symbol("s_excess", positive=True)
+
+
 def lt_one(f):
     """Sound 'f <= 1' for positive quantities by monotone rules (ratio, positive power, product)."""
     f = sp.simplify(f)
@@ -142,6 +145,36 @@ def lt_one(f):
     return bool(d.is_nonnegative)
 
 
+def strict_lt_one(f, s_=None):
+    """Sound 'there is a constant c < 1 with f <= c' (f bounded away from 1) for positive quantities, uniformly in the excess
+    symbol s_ (error = tol·(1+s_), s_ > 0); other symbols (order) are positive run-time constants."""
+    f = sp.simplify(f)
+    if f.is_number:
+        return bool(0 < f < 1)
+    if isinstance(f, sp.Pow):
+        B, E = f.args
+        if s_ is not None and E.has(s_):
+            return False
+        if not B.is_positive:
+            return False
+        if E.is_positive:
+            return strict_lt_one(B, s_)
+        if E.is_negative:
+            # B^E with B >= c > 1 uniformly
+            return strict_lt_one(1 / B, s_) if not isinstance(1 / B, sp.Pow) or (1 / B) != f else False
+        return False
+    if isinstance(f, sp.Mul):
+        return all(lt_one(x) for x in f.args) and any(strict_lt_one(x, s_) for x in f.args)
+    if s_ is not None and f.has(s_):
+        try:
+            c = sp.limit(f, s_, 0, "+")
+        except Exception:
+            return False
+        if c.is_number and 0 < c < 1 and bool(sp.simplify(c - f).is_nonnegative):
+            return True
+    return False
+
+
 def local_def(body, local_id, before):
     """The single `let` that defines a local (no reassignment anywhere), if it precedes `before`."""
     defs = [n for n in walk(body["body"]) if n.get("k") == "LetS" and n["pat"].get("k") == "Bind" and n["pat"]["id"] == local_id and "init" in n]
@@ -151,8 +184,8 @@ def local_def(body, local_id, before):
     return None
 
 
-def classify_dt_write(F, body, n):
-    """-> (class, detail). Classes: clip, shrink, clamp, grow"""
+def classify_dt_write(F, body, n, strict=False):
+    """-> (class, detail). Classes: clip, shrink, clamp, grow (strict: a path-dependent factor must be bounded away from 1, else 'weak-shrink')"""
     it = nalg.NInterp(F, body, {})
     for nm in ("time", "dt", "end", "tolerance", "dt_max", "dt_min", "order"):
         it.fields["self." + nm] = sp.Symbol(nm, positive=True)
@@ -201,7 +234,7 @@ def classify_dt_write(F, body, n):
                 continue
             if isinstance(c, (sp.Le, sp.Lt)) and c.rhs == tol and l[2] is False:
                 e = c.lhs
-                spos = sp.Symbol("s_excess", positive=True)
+                spos = SPOS
                 f2 = f2.subs(e, tol * (1 + spos)) if f2.has(e) else f2
                 # the estimate usually is `c·norm(..)/dt`: substitute the whole sub-expression
         if f2.has(sp.Function("norm")):
@@ -209,6 +242,8 @@ def classify_dt_write(F, body, n):
             pass
         try:
             if lt_one(f2):
+                if strict and not strict_lt_one(f2, SPOS):
+                    return "weak-shrink", "factor %s is below 1 but not bounded away from 1 (error = tolerance·(1+s), s > 0)" % sp.simplify(f2)
                 return "shrink", "factor %s <= 1 on this path" % sp.simplify(f2)
         except Exception:
             pass
